@@ -28,6 +28,8 @@ type PersistedJob struct {
 
 	Variables map[string]interface{} `json:",omitempty"`
 	User      string                 `json:",omitempty"`
+	// LastError is the error of the job (e.g. of the last failed task or of a failed start)
+	LastError *string `json:",omitempty"`
 
 	Tasks []PersistedTask
 }
